@@ -102,6 +102,10 @@ class ConstProperty(PropertyProtocol):
             return f"Union[{lit}, Unset]"
         return lit
 
+    def get_instance_type_string(self) -> str:
+        """Get a string representation of runtime type that should be used for `isinstance` checks"""
+        return type(self.value.raw_value).__name__
+
     def get_imports(self, *, prefix: str) -> set[str]:
         """
         Get a set of import strings that should be included when this property is used somewhere
